@@ -130,3 +130,109 @@ package ringz
 //@   panics_if cap <= 0 || cap > 2147483648
 //@   ensures srOK(result) && srCount(result) == 0
 //@   ensures result.cap >= 2 && ispow2(result.cap) && result.cap >= cap && (result.cap == 2 || result.cap < 2*cap)
+
+// ---------------------------------------------------------------------------------------------------------------
+// SyncRing under concurrency (C01): rely-guarantee verification of Push / Pop for any number of goroutines.
+// Ghost state: H and T are the numbers of completed head / tail advances as mathematical integers (the real 32-bit
+// counters are their residues); every slot i carries the ticket tk[i] whose turn it is in and its phase st[i]:
+// 0 free for the push with ticket tk, 1 claimed by that push (tail advanced, value not yet written), 2 filled,
+// 3 claimed by the pop with ticket tk (head advanced, slot not yet released). Releasing moves the slot to tk+cap.
+// ASSUMPTION (this is finding F11, see known_findings): fewer than 2^31 operations complete between a goroutine's
+// read of tail/head and its CAS on it (the 32-bit tickets are then unambiguous).
+// ---------------------------------------------------------------------------------------------------------------
+//@ ghostfield SyncRing.H
+//@ ghostfield SyncRing.T
+//@ ghostfield SyncRing.tk seq
+//@ ghostfield SyncRing.st seq
+
+//@ spec rgShape(r ref) bool = r != nil && r.cap >= 2 && r.cap <= 2147483648 && ispow2(r.cap) && r.mask == r.cap - 1 && len(r.values) == r.cap
+//@ spec rgCount(r ref) bool = 0 <= r.H && r.H <= r.T && r.T <= r.H + r.cap && r.head == r.H % 4294967296 && r.tail == r.T % 4294967296
+//@ spec rgSlotA(r ref) bool = forall i in 0..r.cap: r.tk[i] % r.cap == i && 0 <= r.st[i] && r.st[i] <= 3
+//@ spec rgSlotB(r ref) bool = forall i in 0..r.cap: r.st[i] == 0 ==> (r.T <= r.tk[i] && r.tk[i] < r.H + r.cap)
+//@ spec rgSlotC(r ref) bool = forall i in 0..r.cap: (r.st[i] == 1 || r.st[i] == 2) ==> (r.H <= r.tk[i] && r.tk[i] < r.T)
+//@ spec rgSlotD(r ref) bool = forall i in 0..r.cap: r.st[i] == 3 ==> (r.H - r.cap <= r.tk[i] && r.tk[i] < r.H && r.T <= r.tk[i] + r.cap)
+//@ spec rgSlotE(r ref) bool = forall i in 0..r.cap: r.values[i].pos == (r.tk[i] + ite(r.st[i] >= 2, 1, 0)) % 4294967296
+// the environment: shape constants never change, H and T only grow, a free slot stays free for its ticket until that
+// ticket is issued, a filled slot stays filled until its ticket is consumed
+//@ spec rgRelyShape(r ref) bool = r.cap == old(r.cap) && r.mask == old(r.mask) && sameSlice(r.values, old(r.values)) && r.H >= old(r.H) && r.T >= old(r.T)
+//@ spec rgRelySlots(r ref) bool = forall i in 0..r.cap: ((old(r.st[i]) == 0 && r.T <= old(r.tk[i])) ==> (r.st[i] == 0 && r.tk[i] == old(r.tk[i]))) && ((old(r.st[i]) == 2 && r.H <= old(r.tk[i])) ==> (r.st[i] == 2 && r.tk[i] == old(r.tk[i]) && r.values[i].value == old(r.values[i].value)))
+
+//@ func SyncRing.Push@rg
+//@   nomerge
+//@   wraps
+//@   split r.cap pow2 1 31
+//@   ghost t0 = 0 - 1
+//@   ghost mine = 0 - 1
+//@   sharedinv rgShape(r) && rgCount(r)
+//@   sharedinv rgSlotA(r)
+//@   sharedinv rgSlotB(r)
+//@   sharedinv rgSlotC(r)
+//@   sharedinv rgSlotD(r)
+//@   sharedinv rgSlotE(r)
+//@   rely rgRelyShape(r) && rgRelySlots(r)
+//@   rely t0 >= 0 ==> r.T < t0 + 2147483648
+//@   rely mine >= 0 ==> (r.st[mine % r.cap] == 1 && r.tk[mine % r.cap] == mine && r.values[mine % r.cap].pos == old(r.values[mine % r.cap].pos))
+//@   guarantee rgRelyShape(r) && rgRelySlots(r)
+//@   guarantee forall i in 0..r.cap: (old(r.st[i]) == 1 && old(r.tk[i]) != mine) ==> (r.st[i] == 1 && r.tk[i] == old(r.tk[i]) && r.values[i].pos == old(r.values[i].pos))
+//@   guarantee forall i in 0..r.cap: old(r.st[i]) == 3 ==> (r.st[i] == 3 && r.tk[i] == old(r.tk[i]) && r.values[i].pos == old(r.values[i].pos))
+//@   guarantee r.H == old(r.H) && r.T <= old(r.T) + 1
+//@   at after-call1:
+//@     ghost t0 = r.T
+//@     assert pos == t0 % 4294967296
+//@   at after-call2:
+//@     assert t0 <= r.T && r.T < t0 + 2147483648 && r.T - r.cap <= r.H && r.H <= r.T
+//@     assert pos == seq ==> (r.st[t0 % r.cap] <= 1 && r.tk[t0 % r.cap] == t0)
+//@   at after-call3:
+//@     assert last_ret ==> r.T == t0
+//@     assert last_ret ==> (r.H <= t0 && t0 < r.H + r.cap && r.st[t0 % r.cap] == 0 && r.tk[t0 % r.cap] == t0)
+//@     ghost mine = ite(last_ret, t0, 0 - 1)
+//@     ghost r.st = ite(last_ret, store(r.st, t0 % r.cap, 1), r.st)
+//@     ghost r.T = ite(last_ret, t0 + 1, r.T)
+//@   at after-call4:
+//@     ghost r.st = store(r.st, mine % r.cap, 2)
+
+//@ func SyncRing.Pop@rg
+//@   nomerge
+//@   wraps
+//@   split r.cap pow2 1 31
+//@   ghost h0 = 0 - 1
+//@   ghost mine = 0 - 1
+//@   ghost ok2 = false
+//@   ghost s2 = 0
+//@   ghost hat2 = 0
+//@   sharedinv rgShape(r) && rgCount(r)
+//@   sharedinv rgSlotA(r)
+//@   sharedinv rgSlotB(r)
+//@   sharedinv rgSlotC(r)
+//@   sharedinv rgSlotD(r)
+//@   sharedinv rgSlotE(r)
+//@   rely rgRelyShape(r) && rgRelySlots(r)
+//@   rely h0 >= 0 ==> r.H < h0 + 2147483648
+//@   rely mine >= 0 ==> (r.st[mine % r.cap] == 3 && r.tk[mine % r.cap] == mine && r.values[mine % r.cap].pos == old(r.values[mine % r.cap].pos))
+//@   guarantee rgRelyShape(r) && rgRelySlots(r)
+//@   guarantee forall i in 0..r.cap: old(r.st[i]) == 1 ==> (r.st[i] == 1 && r.tk[i] == old(r.tk[i]) && r.values[i].pos == old(r.values[i].pos))
+//@   guarantee forall i in 0..r.cap: (old(r.st[i]) == 3 && old(r.tk[i]) != mine) ==> (r.st[i] == 3 && r.tk[i] == old(r.tk[i]) && r.values[i].pos == old(r.values[i].pos))
+//@   guarantee r.T == old(r.T) && r.H <= old(r.H) + 1
+//@   at after-call1:
+//@     ghost h0 = r.H
+//@     assert pos == h0 % 4294967296
+//@   at after-call2:
+//@     assert h0 <= r.H && r.H < h0 + 2147483648 && r.H <= r.T && r.T <= r.H + r.cap
+//@     assert (pos + 1) % 4294967296 == seq ==> (r.st[h0 % r.cap] >= 2 && r.tk[h0 % r.cap] == h0)
+//@     ghost ok2 = (pos + 1) % 4294967296 == seq
+//@     ghost s2 = r.st[h0 % r.cap]
+//@     ghost hat2 = r.H
+//@     assert (ok2 && s2 == 3) ==> hat2 > h0
+//@   at before-call3:
+//@     assert (ok2 && s2 == 2 && r.H <= h0) ==> (r.st[h0 % r.cap] == 2 && r.tk[h0 % r.cap] == h0)
+//@   at after-call3:
+//@     assert last_ret ==> r.H == h0
+//@     assert last_ret ==> (ok2 && hat2 <= h0 && s2 == 2)
+//@     assert last_ret ==> (r.st[h0 % r.cap] == 2 && r.tk[h0 % r.cap] == h0)
+//@     assert last_ret ==> h0 < r.T
+//@     ghost mine = ite(last_ret, h0, 0 - 1)
+//@     ghost r.st = ite(last_ret, store(r.st, h0 % r.cap, 3), r.st)
+//@     ghost r.H = ite(last_ret, h0 + 1, r.H)
+//@   at after-call4:
+//@     ghost r.st = store(r.st, mine % r.cap, 0)
+//@     ghost r.tk = store(r.tk, mine % r.cap, mine + r.cap)
